@@ -360,7 +360,15 @@ json_t *jwk_export_json(const KeyTruth &k, const JwkOpts &o)
 	switch (k.kty) {
 	case K_OCT:
 		json_object_set_new(j, "kty", json_string("oct"));
-		set_b64(j, "k", k.oct);
+		if (o.oct_pad) {
+			std::string t = b64url_encode(k.oct);
+			if (o.oct_pad == 1)
+				t += std::string((4 - t.size() % 4) % 4, '=');
+			else
+				t += "=AAAAAAAAAAAAAAAAAAAAAAAAAAAAAAAAAAAAAAAAAAAAAAAAAAAAAAAAAAAAAAAAAAAAAAAA";
+			json_object_set_new(j, "k", json_string(t.c_str()));
+		} else
+			set_b64(j, "k", k.oct);
 		break;
 	case K_RSA: {
 		json_object_set_new(j, "kty", json_string("RSA"));
